@@ -254,9 +254,11 @@ WATCHDOG_KEY = re.compile(r"timeout|hang|runaway|did-not-finish")
 def finish(mod, ctx, t0):
     known = load_known()
     new, listed = [], []
+    listed_witness = {}
     for key, (order, what, witness) in sorted(ctx.violations.items(), key=lambda kv: (kv[1][0], kv[0])):
         if (ctx.pid, key) in known:
             listed.append((key, known[(ctx.pid, key)]))
+            listed_witness[key] = (what, witness)
         else:
             # A verdict that rests on a watchdog (CPU-time budget of one item) must reproduce before it is believed: the witness is replayed
             # once here, in this process, with a fresh budget.  Everything else about a violation is deterministic and is not re-run.
@@ -308,6 +310,13 @@ def finish(mod, ctx, t0):
     validate_evidence(path)
     for key, what in listed:
         print("KNOWN-FINDING: property=%s key=%s %s" % (ctx.pid, key, what))
+        # the witness of a listed finding is kept as a replay file too: the known-findings file names the key, this file the failing input
+        d = os.path.join(VERIF, "replays", ctx.pid)
+        os.makedirs(d, exist_ok=True)
+        rp = os.path.join(d, hashlib.blake2b(key.encode(), digest_size=6).hexdigest() + ".json")
+        with open(rp, "w") as f:
+            json.dump({"property": ctx.pid, "key": key, "what": listed_witness[key][0], "witness": listed_witness[key][1], "known_finding": True}, f, indent=1, default=repr)
+            f.write("\n")
     rc = 0
     for key, what, witness in new:
         d = os.path.join(VERIF, "replays", ctx.pid)
